@@ -36,6 +36,7 @@ pub const SC: u64 = 15; // sweep of our to_remote output of UC
 pub const UR: u64 = 16; // an OLD (revoked) counterparty commitment, number 5, no HTLC (breach)
 pub const SR: u64 = 17; // sweep of our to_remote output of UR
 pub const JR: u64 = 18; // justice spend of the counterparty's to_local output of UR
+pub const UN: u64 = 19; // counterparty commitment that pays us nothing (no to_remote output): nothing of ours to sweep
 pub const X0: u64 = 20; // unrelated transactions X0..X0+9
 
 /// Deliver a block connection the way the real front end does: compact proof, or — when requested, or
@@ -51,7 +52,7 @@ pub fn deliver_add(tracker: &mut ChainTracker<ChainMonitor>, block: &Block, want
     let fp = !zero && proof.verify(h + 1, &block.header, None, &tip.1, &watches, &secp).is_err();
     if want_streamed || fp {
         let ext = TxoProof { attestations: proof.attestations.clone(), proof: ProofType::ExternalBlock() };
-        tracker.block_chunk(block.block_hash(), 0, &serialize(block)).unwrap();
+        stream_block(tracker, block);
         tracker.add_block(block.header, ext).map(|_| fp)
     } else {
         tracker.add_block(block.header, proof).map(|_| fp)
@@ -69,10 +70,26 @@ pub fn deliver_remove(tracker: &mut ChainTracker<ChainMonitor>, block: &Block, w
     let fp = !zero && proof.verify(h, &block.header, None, &prev.1, &watches, &secp).is_err();
     if want_streamed || fp {
         let ext = TxoProof { attestations: proof.attestations.clone(), proof: ProofType::ExternalBlock() };
-        tracker.block_chunk(block.block_hash(), 0, &serialize(block)).unwrap();
+        stream_block(tracker, block);
         tracker.remove_block(ext, prev).map(|_| fp)
     } else {
         tracker.remove_block(proof, prev).map(|_| fp)
+    }
+}
+
+/// stream a block in one to three chunks (split points derived from the block hash)
+pub fn stream_block(tracker: &mut ChainTracker<ChainMonitor>, block: &Block) {
+    let bytes = serialize(block);
+    let hash = block.block_hash();
+    let hb = hash.to_byte_array();
+    let pieces = 1 + (hb[0] % 3) as usize;
+    let mut cuts: Vec<usize> = (1..pieces).map(|i| (bytes.len() * i / pieces + (hb[i] as usize % 7)).min(bytes.len() - 1).max(1)).collect();
+    cuts.push(bytes.len());
+    let mut off = 0usize;
+    for c in cuts {
+        if c <= off { continue; }
+        tracker.block_chunk(hash, off as u32, &bytes[off..c]).unwrap();
+        off = c;
     }
 }
 
@@ -129,7 +146,9 @@ pub struct World {
     pub base_height: u32,
     pub filter_false_positives: u32,
     /// per closing tx: (index of the output the harness built as ours, HTLC output indices it built)
-    pub built: BTreeMap<u64, (u32, Vec<u32>)>,
+    pub built: BTreeMap<u64, (Option<u32>, Vec<u32>)>,
+    /// spender id -> [(vout of the closing tx it spends, input index)] for the tracked non-ours outputs
+    pub htlc_spends: BTreeMap<u64, Vec<(u32, u32)>>,
     pub ctype: String,
 }
 
@@ -199,6 +218,13 @@ impl World {
             .transaction
             .clone();
         let uc_our = uc.output.iter().position(|o| o.value.to_sat() == uc_to_holder).expect("to_remote output") as u32;
+        let un = node
+            .with_channel(&channel_id, |chan| Ok(chan.make_counterparty_commitment_tx(&cp_point, commit_num, feerate, 0, 2_975_000, vec![])))
+            .unwrap()
+            .trust()
+            .built_transaction()
+            .transaction
+            .clone();
         let old_point = lightning_signer::util::test_utils::key::make_test_pubkey(13);
         let (ur_to_holder, ur_to_cp) = (1_200_000u64, 1_780_000u64);
         let ur = node
@@ -233,6 +259,7 @@ impl World {
         txs.insert(SC, mk_tx(vec![OutPoint::new(uc.compute_txid(), uc_our)], 1, 24));
         txs.insert(UC, uc);
         txs.insert(UR, ur);
+        txs.insert(UN, un);
         txs.insert(SR, sr);
         txs.insert(JR, jr);
         txs.insert(S, mk_tx(vec![OutPoint::new(utxid, our)], 1, 15));
@@ -255,7 +282,7 @@ impl World {
             ids.insert(t.compute_txid(), *k);
         }
         let base_height = node.get_tracker().height();
-        World { node, channel_id, funding_outpoint, txs, ids, blocks: vec![], cb: 0, base_height, filter_false_positives: 0, built: BTreeMap::from([(U, (our, vec![h1.min(h2), h1.max(h2)])), (UC, (uc_our, vec![])), (UR, (ur_our, vec![ur_local]))]), ctype: ct.to_string() }
+        World { node, channel_id, funding_outpoint, txs, ids, blocks: vec![], cb: 0, base_height, filter_false_positives: 0, built: BTreeMap::from([(U, (Some(our), vec![h1.min(h2), h1.max(h2)])), (UC, (Some(uc_our), vec![])), (UR, (Some(ur_our), vec![ur_local])), (UN, (None, vec![]))]), htlc_spends: BTreeMap::from([(T1, vec![(h1, 0)]), (T2, vec![(h2, 0)]), (T12, vec![(h1, 0), (h2, 1)]), (JR, vec![(ur_local, 0)])]), ctype: ct.to_string() }
     }
 
     /// tx tokens `T<id>:<inputs>:<nOut>:<kind>`; the kind of the two closing transactions comes from
@@ -276,8 +303,9 @@ impl World {
             // is compared with it after every block that confirms one of them (`our-output-not-recognised`)
             let mut kinds: BTreeMap<u64, String> = BTreeMap::new();
             kinds.insert(M, "p".to_string());
-            for id in [U, UC, UR] {
+            for id in [U, UC, UR, UN] {
                 let (our, hs) = w.built[&id].clone();
+                let our = our.map(|x| x.to_string()).unwrap_or("-".into());
                 let hs: Vec<String> = hs.iter().map(|x| x.to_string()).collect();
                 kinds.insert(id, format!("c{}/{}", our, if hs.is_empty() { "-".into() } else { hs.join(",") }));
             }
@@ -470,7 +498,7 @@ impl World {
         let r = catch_unwind(AssertUnwindSafe(|| {
             if streamed {
                 let ext = TxoProof { attestations: proof.attestations.clone(), proof: ProofType::ExternalBlock() };
-                tracker.block_chunk(block.block_hash(), 0, &serialize(&block)).unwrap();
+                stream_block(&mut tracker, &block);
                 tracker.add_block(block.header, ext)
             } else {
                 tracker.add_block(block.header, proof)
@@ -528,4 +556,73 @@ pub fn tok_typed(ct: &str, id: u64) -> String {
 
 pub fn init_line() -> String {
     World::shared().init_line()
+}
+
+/// Reference view computed from the harness' own knowledge of the chain (which pool transaction is in which
+/// block and what each of them is), independent of the implementation and of the Lean model: the state part and
+/// the watch sets a monitor must show after connecting exactly `chain` (in order) on top of the base height.
+pub fn expected_view(w: &World, chain: &[Vec<u64>]) -> String {
+    let h0 = w.base_height as u64;
+    let height_of = |id: u64| chain.iter().position(|b| b.contains(&id)).map(|i| h0 + i as u64 + 1);
+    let on = |x: Option<u64>| x.map(|v| v.to_string()).unwrap_or("-".into());
+    let order: Vec<u64> = chain.iter().flatten().cloned().collect(); // confirmation order
+    let fh = height_of(F);
+    let ds = if fh.is_some() { None } else { [height_of(D), height_of(D2)].into_iter().flatten().min() };
+    let mc = height_of(M);
+    let close = [U, UC, UR, UN].into_iter().find(|c| height_of(*c).is_some());
+    let uc = close.and_then(|c| height_of(c));
+    let our_sweeper = |c: u64| if c == U { S } else if c == UC { SC } else { SR };
+    let second_spender = |t: u64, idx: u32| match (t, idx) { (T1, 0) => Some(V1), (T2, 0) => Some(V2), (T12, 0) => Some(V12A), (T12, 1) => Some(V12B), _ => None };
+    let mut tracked: Vec<((u64, u32), bool)> = vec![((0, 1), false), ((0, 2), false)]; // (outpoint, spent on chain)
+    let spent_input = |id: u64, inp: (u64, u32)| -> bool {
+        order.iter().any(|t| *t != id && w.txs[t].input.iter().any(|i| (w.ids.get(&i.previous_output.txid).cloned().unwrap_or(999), i.previous_output.vout) == inp))
+    };
+    let (mut co, mut csh, mut osh) = ("-".to_string(), None, None);
+    if fh.is_some() { tracked.push(((F, 0), false)); }
+    if let Some(c) = close {
+        let (our, htlcs) = w.built[&c].clone();
+        let ch = uc.unwrap();
+        let our_spent_h = match our { Some(_) => height_of(our_sweeper(c)), None => Some(ch) };
+        if let Some(o) = our { tracked.push(((c, o), false)); }
+        let mut flags = Vec::new();
+        let mut needed: Vec<Option<u64>> = vec![Some(ch), our_spent_h]; // heights that must all exist for "swept"
+        for hv in &htlcs {
+            tracked.push(((c, *hv), false));
+            let spender = w.htlc_spends.iter().find(|(t, v)| height_of(**t).is_some() && v.iter().any(|(vo, _)| vo == hv)).map(|(t, _)| *t);
+            flags.push(spender.is_some());
+            needed.push(spender.and_then(|t| height_of(t)));
+        }
+        // second-level entries in confirmation order (input order inside a transaction)
+        let mut second = Vec::new();
+        for t in order.iter() {
+            if let Some(v) = w.htlc_spends.get(t) {
+                if v.iter().all(|(vo, _)| htlcs.contains(vo)) && w.txs[t].input.iter().any(|i| w.ids.get(&i.previous_output.txid) == Some(&c)) {
+                    for (_, idx) in v {
+                        let sp = second_spender(*t, *idx).and_then(|x| height_of(x));
+                        tracked.push(((*t, *idx), false));
+                        second.push(format!("{}.{}+{}", t, idx, if sp.is_some() { 1 } else { 0 }));
+                        needed.push(sp);
+                    }
+                }
+            }
+        }
+        let j = |v: Vec<String>, sep: &str| if v.is_empty() { "-".to_string() } else { v.join(sep) };
+        co = format!(
+            "{}/{}/{}/{}/{}",
+            c, match our { Some(o) => format!("{}+{}", o, if our_spent_h.is_some() { 1 } else { 0 }), None => "-".to_string() },
+            j(htlcs.iter().map(|x| x.to_string()).collect(), ","),
+            j(flags.iter().map(|b| if *b { "1".to_string() } else { "0".to_string() }).collect(), ","),
+            j(second, ";")
+        );
+        if needed.iter().all(|x| x.is_some()) { csh = needed.iter().flatten().max().cloned(); }
+        osh = our_spent_h;
+    }
+    for e in tracked.iter_mut() { e.1 = spent_input(u64::MAX, e.0); }
+    let fmt = |v: Vec<(u64, u32)>| { let mut v = v; v.sort(); v.dedup(); format!("[{}]", v.iter().map(|(a, b)| format!("{}.{}", a, b)).collect::<Vec<_>>().join(",")) };
+    let watches = fmt(tracked.iter().filter(|e| !e.1).map(|e| e.0).collect());
+    let seen = fmt(tracked.iter().filter(|e| e.1).map(|e| e.0).collect());
+    format!(
+        "h={} fh={} fo={} ds={} mc={} uc={} co={} csh={} osh={} sf=0 w={} seen={}",
+        h0 + chain.len() as u64, on(fh), if fh.is_some() { format!("{}.0", F) } else { "-".into() }, on(ds), on(mc), on(uc), co, on(csh), on(osh), watches, seen
+    )
 }
